@@ -102,20 +102,23 @@ def run(ctx, rep):
                 continue
             if c[0] != 'Ok':
                 continue
-            val, flag = c[1], c[2]
-            same_as_conv = all(b[0] == 'Ok' and b[1] == val for b in base)
-            if flag == E.FALSE and not same_as_conv and ic.get(k) is False and W.interval_provenance(fin, k, val):
-                rep.ob('R8.3', f'{w.policy}:{k}:interval-definition-kept', True,
-                       'the interval definition of the method re-applied to this world\'s Shurooq/Maghrib (C10 R10.3)')
-            elif flag == E.FALSE:
-                rep.ob('R8.3', f'{w.policy}:{k}:unflagged-is-conventional', same_as_conv,
-                       'unflagged time equals the conventional time' if same_as_conv else
-                       f'{k} is not flagged extreme but differs from the conventional time: {W.show_cell(c)} vs {[W.show_cell(b) for b in base][:2]}',
-                       world=w.describe())
-            elif flag == E.TRUE:
-                rep.ob('R8.3', f'{w.policy}:{k}:flagged', True, 'flagged')
-            else:
-                rep.ob('R8.3', f'{w.policy}:{k}:flag-unknown', None, f'flag is {show(flag)[:80]}', world=w.describe())
+            # a cell still joined over conditions (a clamp, a match on another entry) is judged case by case
+            for case_asm, cc in ([({}, c)] if c[2] in (E.TRUE, E.FALSE) else W.cell_cases_asm(c, flag_only=True)):
+                val, flag = cc[1], cc[2]
+                cbase = [W.cell_under(b, case_asm) for b in base] if case_asm else base
+                same_as_conv = all(b[0] == 'Ok' and b[1] == val for b in cbase)
+                if flag == E.FALSE and not same_as_conv and ic.get(k) is False and W.interval_provenance(fin, k, val):
+                    rep.ob('R8.3', f'{w.policy}:{k}:interval-definition-kept', True,
+                           'the interval definition of the method re-applied to this world\'s Shurooq/Maghrib (C10 R10.3)')
+                elif flag == E.FALSE:
+                    rep.ob('R8.3', f'{w.policy}:{k}:unflagged-is-conventional', same_as_conv,
+                           'unflagged time equals the conventional time' if same_as_conv else
+                           f'{k} is not flagged extreme but differs from the conventional time: {W.show_cell(cc)} vs {[W.show_cell(b) for b in cbase][:2]}',
+                           world=w.describe())
+                elif flag == E.TRUE:
+                    rep.ob('R8.3', f'{w.policy}:{k}:flagged', True, 'flagged')
+                else:
+                    rep.ob('R8.3', f'{w.policy}:{k}:flag-unknown', None, f'flag is {show(flag)[:80]}', world=w.describe())
     rep.extra['worlds_exempt_interval_methods'] = n_exempt
     for w in pa.worlds[:: max(1, len(pa.worlds) // 12)]:
         rep.sample({'world': w.describe(), 'final': {k: W.show_cell(v) for k, v in (w.final or {}).items()}})
